@@ -193,38 +193,26 @@ Proof.
 Qed.
 
 (* ------------------------------------------------------------------------------------------ *)
-(* full transparency at width > 0 is false of the faithful model *)
+(* regression: the witnesses of the fixed finding C03-preserved-newline-offset (b3af6c0) round-trip on the model
+   as it follows the code now *)
 
 Definition c03_witness : node :=
   Tag [] [114%N] []
     [Tag [] [97%N] []
        [Tag [] [98%N] [(xml_ns, s_space, s_preserve)] [Text [120; 10]%N]; Text [98; 98]%N]].
-
-Lemma c03_witness_facts :
-  reduce_model c03_witness = c03_witness /\ ws_indent [SP; SP] = true /\
-  verbatim_newline false c03_witness = true /\
-  reduce_model (wrap_seen [SP; SP] false 5%Z c03_witness []) <> c03_witness.
-Proof. vm_compute. repeat split. discriminate. Qed.
-
-Theorem wrapped_refuted : exists t ind align w, reduced t /\ ws_indent ind = true /\ (0 < w)%Z /\
-  reduce_model (wrap_seen ind align w t []) <> t.
-Proof.
-  exists c03_witness, [SP; SP], false, 5%Z. destruct c03_witness_facts as (H1 & H2 & _ & H4).
-  split; [exact H1|]. split; [exact H2|]. split; [reflexivity|exact H4].
-Qed.
-
-(* the same coincidence after a comment that contains a newline: <r><a><!--x(LF)y-->bb</a></r>, indentation two spaces *)
 Definition c03_witness_comment : node :=
   Tag [] [114%N] [] [Tag [] [97%N] [] [Comment [120; 10; 121]%N; Text [98; 98]%N]].
-Lemma c03_witness_comment_facts :
-  reduce_model c03_witness_comment = c03_witness_comment /\ verbatim_newline false c03_witness_comment = true /\
-  reduce_model (wrap_seen [SP; SP] false 5%Z c03_witness_comment []) <> c03_witness_comment.
-Proof. vm_compute. repeat split. discriminate. Qed.
 
-(* the same options leave a tree outside the class of the finding intact (non-vacuity of the guard) *)
+Lemma c03_witness_regression :
+  reduce_model c03_witness = c03_witness /\ verbatim_newline false c03_witness = true /\
+  reduce_model (wrap_seen [SP; SP] false 5%Z c03_witness []) = c03_witness /\
+  reduce_model c03_witness_comment = c03_witness_comment /\ verbatim_newline false c03_witness_comment = true /\
+  reduce_model (wrap_seen [SP; SP] false 5%Z c03_witness_comment []) = c03_witness_comment.
+Proof. vm_compute. repeat split. Qed.
+
 Example wrapped_ok_example :
   let t := Tag [] [114%N] [] [Text [97; 97; 32; 98; 98; 32]%N; Tag [] [105%N] [] [Text [99; 99]%N]; Text [32; 100; 100; 32; 101; 101]%N] in
-  reduce_model t = t /\ verbatim_newline false t = false /\
+  reduce_model t = t /\
   wrap_str [SP; SP] false 5%Z t [] <> render (plain t) /\
   reduce_model (wrap_seen [SP; SP] false 5%Z t []) = t.
 Proof. vm_compute. repeat split. discriminate. Qed.
